@@ -53,6 +53,32 @@ def agree(case, impl, model):
             if v != v or abs(exact(v) - Fraction(n, d)) > scale * Fraction(1, 2 ** 40):
                 return False
         return True
+    if head == "logspace_a":
+        # one sequence per (start, stop, base) triple: column j is base[j] ** (evenly spaced exponents from start[j])
+        st = [int(x) for x in t[1].split(":", 1)[1].split(",")]
+        sp = [int(x) for x in t[2].split(":", 1)[1].split(",")]
+        num, ep = int(t[3][1:]), t[4] == "z1"
+        base = [10] if t[5] == "n" else [int(x) for x in t[5].split(":", 1)[1].split(",")]
+        k = max(len(st), len(sp))
+        st, sp = (st * k if len(st) == 1 else st), (sp * k if len(sp) == 1 else sp)
+        if len(st) != len(sp) or len(base) not in (1, k):
+            return impl.startswith("err(")
+        base = base * k if len(base) == 1 else base
+        if "|" not in impl:
+            return False
+        shp, _, bits_ = impl.partition("|")
+        vals = f64s(bits_)
+        if vals is None or shp != f"{num}x{k}" or len(vals) != num * k:
+            return False
+        if num < 2:
+            return True
+        div = (num - 1) if ep else num
+        for i in range(num):
+            for j in range(k):
+                want = float(base[j]) ** (st[j] + (sp[j] - st[j]) * i / div)
+                if abs(vals[i * k + j] - want) > 1e-9 * abs(want):
+                    return False
+        return True
     if head in ("logspace_t", "geomspace_t", "linspace_t"):
         head = head[:-2]
         # integer element types: element i is the double of position i converted to the type (truncation, saturation);
@@ -198,6 +224,13 @@ def gen(seed, tier):
             g1, g2 = rng.choice([1, 2, 5, 10, 1000]), rng.choice([1, 3, 8, 100, 4096])
             out.append(f"geomspace z{g1} z1 z{g2} z1 z{num} z{ep}")
     out.append("linspace z0 z1 z1 z1 z0 z1")
+    # the array form: a base per sequence (seeded change C16n: only base[0] was used)
+    for st, sp, base in (([0, 1, 2], [2, 3, 4], [2, 3, 5]), ([0, 0], [3, 3], [10, 2]), ([1], [4], [2]), ([0, 1], [2], [2, 4]), ([0], [1, 2, 3], [3, 2, 7]),
+                         ([0, 1, 2], [2, 3, 4], None), ([0, 1], [2, 3], [5]), ([0, 1, 2], [2, 3], [2, 3, 5]), ([0, 1], [2, 3], [2, 3, 5])):
+        for num in (1, 2, 3, 5):
+            for ep in (0, 1):
+                b = "n" if base is None else arr([len(base)], base)
+                out.append(f"logspace_a {arr([len(st)], st)} {arr([len(sp)], sp)} z{num} z{ep} {b}")
     # integer element types: negative exponents (values below 1 become 0), values beyond the type's range
     for ty in ("i8", "i16", "i32", "i64", "u8"):
         for (a, b) in ((-2, 2), (0, 3), (-3, 0), (1, 4), (2, -2), (0, 0), (-1, 5)):
